@@ -121,6 +121,13 @@ CLAIMED = {
         text="Every catalogue entry (constraint violations of declarations, expressions, statements, initialisers, literals, directives; unsupported features) must be rejected with status 1 and a well-formed diagnostic "
              "while the same host program without it compiles to valid IL. The evidence lists which diagnostic sites of the current tree were reached and which were not.",
         note="Covers the checks that exist plus the constraints the property names; sites that are internal errors or need a prior defect stay uncovered (listed in evidence); gcc 12 -pedantic-errors guards language-level entries."),
+    "C09": dict(
+        category="exploration", design_ref="DESIGN.md 3/C09",
+        engine="enumeration+hypothesis",
+        technique="bounded-exhaustive enumeration of declaration histories of one identifier plus Hypothesis multi-identifier units; the symbol table read from the emitted IL is compared with the ELF symbol tables of gcc and clang (used only where both accept and agree)",
+        text="Histories of up to 3 declarations/definitions (objects: 6 storage-class combinations; functions: 6 specifier combinations; file/block scope; with/without initialiser or body) and random units with "
+             "interleaved histories, block-scope externs/statics, tentative arrays, asm labels and thread-locals: defined symbols with export flag, kind, size and zero-ness, no-linkage objects and undefined references must match the references.",
+        note="gcc 12 and clang 14 (-std=c11 -pedantic-errors, implicit declarations as errors) are the oracle instead of a hand-written linkage model; quick tier samples 1/7 of the length-2/3 histories per seed, thorough enumerates all (and samples length 4); two recorded findings are replayed separately."),
 }
 
 NOT_YET = "check not built yet in this round (planned per DESIGN.md section 10); no claim is made"
